@@ -1,3 +1,14 @@
 package main
 
-func (x *extractor) genSkeletons() string { return header + "namespace Ntrip.Gen\nend Ntrip.Gen\n" }
+import "strings"
+
+func (x *extractor) genSkeletons() string {
+	var b strings.Builder
+	b.WriteString(header)
+	b.WriteString("namespace Ntrip.Gen\n\n")
+	x.genSkeletonsDisplay(&b)
+	b.WriteString("\n")
+	x.genSkeletonsConc(&b)
+	b.WriteString("\nend Ntrip.Gen\n")
+	return b.String()
+}
